@@ -2,7 +2,10 @@
 
 package rjson
 
-import "runtime"
+import (
+	"math"
+	"runtime"
+)
 
 // Native definitions of the harness intrinsics, used to replay a solver model
 // against the real build: nondeterministic choices are read from vScript in
@@ -92,3 +95,6 @@ func vCostBytes() int {
 	return int(vMemStats.TotalAlloc - vTotalAlloc0)
 }
 func vAssertCost(c bool, id string) { vAssert(c, id) }
+
+// identical IEEE bit patterns (distinguishes -0 from +0)
+func vFloatSame(a, b float64) bool { return math.Float64bits(a) == math.Float64bits(b) }
